@@ -539,6 +539,8 @@ def r8_nothing_leaks_on_abort(chk: Check):
 
     c09.r1_pairing(chk)
     c09.r3_foreign_holdings_watched(chk)
+    # a release must not be able to die half-way (a closed event loop among the dependents' loops): the job would never reach its final state
+    c09.event_loops_not_closed(chk)
 
 
 RULES = [
